@@ -183,7 +183,7 @@ func (s *ehCheckState) CheckBody(ctx context.Context, h textproto.Header, b buff
 func (s *ehCheckState) Close() error { return nil }
 
 func ehReject(what string) module.CheckResult {
-	return module.CheckResult{Reject: true, Reason: &exterrors.SMTPError{Code: 550, EnhancedCode: exterrors.EnhancedCode{5, 7, 1}, Message: "scripted reject at " + what, CheckName: "verif"}}
+	return module.CheckResult{Reject: true, Reason: &exterrors.SMTPError{Code: 550, EnhancedCode: exterrors.EnhancedCode{5, 7, 1}, Message: "scripted reject at " + what + " (refus\u00e9)", CheckName: "verif"}}
 }
 
 // ---- scripted modifier --------------------------------------------------------------------------------
